@@ -27,6 +27,8 @@ class TargetURI:
     """
 
     def __init__(self, raw: str) -> None:
+        if not isinstance(raw, str):
+            raise ValueError(f"a target URI must be a string, not {type(raw).__name__}")
         self.raw = raw
         self.url = urlparse(raw)
         self.qs = parse_qs(self.url.query)
